@@ -1048,6 +1048,16 @@ def o_c20(recs):
                 sg = parse_sign(c["author"])
                 if sg is None or sg["name"] != name or sg["email"] != email:
                     bad.append((i, "author %r is not the effective identity %r <%r>" % (c["author"], name, email)))
+            else:
+                okname = b"<" not in name and b"\n" not in name
+                okmail = re.fullmatch(rb"[a-zA-Z0-9_.+-]+@([a-zA-Z0-9][a-zA-Z0-9-]*\.)+[a-zA-Z]{2,}", email) is not None
+                try:
+                    differs = staged(b) is not None and staged(b) != head_snapshot(b)
+                except Exception:
+                    differs = False
+                if okname and okmail and differs and not fd_conflict(b):
+                    bad.append((i, "commit refused although the effective identity is %r <%r> and there are staged changes: %r"
+                                % (name, email, r.res.err[:100])))
     return bad
 
 
